@@ -134,6 +134,52 @@ fn table_range_predicates_never_hide_a_key<const N: usize>() {
 	core::mem::forget(t);
 }
 
+/// C06-O2c [added after seed C13-4]: the same shortcut fed with a range built from REAL boundary keys,
+/// as compaction does (`combined_key_range` folds the smallest/largest InternalKeys of the selected
+/// tables into (Included, Included) bounds that carry arbitrary sequence numbers and timestamps): a
+/// table that holds a user key x inside the user-key span of the range is never classified before /
+/// after it, whatever sequence numbers and timestamps the table's own boundary keys and the bounds
+/// carry (all versions of a user key must be selected together).
+#[kani::proof]
+#[kani::unwind(4)]
+fn c06_table_range_predicates_boundary_key_ranges() {
+	let (s, sl) = any_keyn::<2>();
+	let (l, ll) = any_keyn::<2>();
+	let (x, xl) = any_keyn::<2>();
+	let (lo, lol) = any_keyn::<2>();
+	let (hi, hil) = any_keyn::<2>();
+	let (s, l, x, lo, hi) = (&s[..sl], &l[..ll], &x[..xl], &lo[..lol], &hi[..hil]);
+	kani::assume(s <= l && s <= x && x <= l && lo <= x && x <= hi);
+	let seqs: [u64; 4] = kani::any();
+	let ts: [u64; 4] = kani::any();
+	kani::assume(seqs[0] < (1 << 56) && seqs[1] < (1 << 56) && seqs[2] < (1 << 56) && seqs[3] < (1 << 56));
+	let t = mk_table(7, Some(s), Some(l), (Some(1), Some((1 << 56) - 1)));
+	// give the table's boundary keys their own sequence numbers and timestamps
+	let t = {
+		let mut t = t;
+		let tm = Arc::get_mut(&mut t).unwrap();
+		tm.meta.smallest_point = Some(InternalKey::new(s.to_vec(), seqs[0], InternalKeyKind::Set, ts[0]));
+		tm.meta.largest_point = Some(InternalKey::new(l.to_vec(), seqs[1], InternalKeyKind::Set, ts[1]));
+		t
+	};
+	let range: crate::InternalKeyRange = (
+		Bound::Included(InternalKey::new(lo.to_vec(), seqs[2], InternalKeyKind::Set, ts[2])),
+		Bound::Included(InternalKey::new(hi.to_vec(), seqs[3], InternalKeyKind::Set, ts[3])),
+	);
+	let before = t.is_before_range(&range);
+	let after = t.is_after_range(&range);
+	let overlaps = t.overlaps_with_range(&range);
+	#[cfg(verif_replay)]
+	println!("REPLAY table [{:?} seq {} ts {},{:?} seq {} ts {}] x={:?} boundary-key range [{:?} seq {} ts {},{:?} seq {} ts {}] -> before={} after={} overlaps={}", s, seqs[0], ts[0], l, seqs[1], ts[1], x, lo, seqs[2], ts[2], hi, seqs[3], ts[3], before, after, overlaps);
+	assert!(!before, "table skipped as 'before' a boundary-key range although it holds a user key of the range");
+	assert!(!after, "table skipped as 'after' a boundary-key range although it holds a user key of the range");
+	assert!(overlaps, "overlaps_with_range false for a boundary-key range although the table holds a user key of the range");
+	kani::cover!(x == lo && x == l && ts[2] < ts[1] && seqs[2] < seqs[1], "lower bound = table's largest user key with older seq/timestamp");
+	kani::cover!(x == hi && x == s && ts[3] > ts[0] && seqs[3] > seqs[0], "upper bound = table's smallest user key with newer seq/timestamp");
+	core::mem::forget(range);
+	core::mem::forget(t);
+}
+
 /// C06-O2 (witness only, so that the predicates are not vacuously 'false'): a table entirely below an
 /// included lower bound / above an included upper bound is skipped.  COVER witnesses, not assertions:
 /// a less precise predicate changes no answer.
